@@ -435,7 +435,7 @@ func (r *Run) ReturnShape(rule, fnRef string, k int, cases ...ShapeCase) {
 			continue
 		}
 		ret, ok := b.Instrs[len(b.Instrs)-1].(*ssa.Return)
-		if !ok || k >= len(ret.Results) {
+		if !ok || k >= len(ret.Results) || b == fn.Recover {
 			continue
 		}
 		// expand φ results per incoming edge
@@ -659,5 +659,36 @@ func (r *Run) RequireReturnAllPaths(rule, fnRef string, k int, retPat string, mi
 	}
 	if n < min {
 		r.Fail(rule, fmt.Sprintf("%s: returns matching %s", fnRef, retPat), r.P.Pos(fn.Pos()), fmt.Sprintf("anchor-unresolved: expected >= %d, found %d", min, n))
+	}
+}
+
+// RequireBranchDominatesCall: a branch whose condition matches condPat (either
+// polarity) dominates every call to callee in fnRef (it is evaluated before the call
+// on every path).
+func (r *Run) RequireBranchDominatesCall(rule, fnRef, callee, name, condPat string) {
+	fn := r.fn(rule, fnRef)
+	if fn == nil {
+		return
+	}
+	ff := r.P.Facts(fn)
+	sites := r.CallSites(fn, callee)
+	if len(sites) == 0 {
+		r.Fail(rule, fnRef+": "+name, r.P.Pos(fn.Pos()), "anchor-unresolved: no call to "+callee)
+		return
+	}
+	for _, cs := range sites {
+		found := false
+		for _, b := range fn.Blocks {
+			iff := ifOf(b)
+			if iff == nil || !b.Dominates(cs.Block()) || b == cs.Block() {
+				continue
+			}
+			for _, a := range append(ff.condAtomsX(iff.Cond, true), ff.condAtomsX(iff.Cond, false)...) {
+				if glob(condPat, a) {
+					found = true
+				}
+			}
+		}
+		r.Check(rule, fnRef+": "+name, r.P.Pos(cs.Pos()), found, "no branch on "+condPat+" dominates the call to "+callee)
 	}
 }
